@@ -21,8 +21,8 @@ class ReduceFn:
     _pyvc_keywords = ("axis", "keepdims")
     _pyvc_is_gen = False
 
-    def __init__(self, kind, label="R"):
-        self.kind, self.label = kind, label
+    def __init__(self, kind, label="R", out_dtype=None):
+        self.kind, self.label, self.out_dtype = kind, label, out_dtype
         self.__name__ = label
 
     def __call__(self, x, axis=None, keepdims=False, **kw):
@@ -36,7 +36,7 @@ class ReduceFn:
             axis = (axis,)
         if not keepdims:
             raise Unsupported("reduction kernel without keepdims")
-        return SymBlock(tuple(1 if i in axis else s for i, s in enumerate(x.shape)), x.dtype, None, f"{self.label}(...)")
+        return SymBlock(tuple(1 if i in axis else s for i, s in enumerate(x.shape)), self.out_dtype or x.dtype, None, f"{self.label}(...)")
 
 
 def partial_reduce_loop(c, kind):
@@ -55,7 +55,8 @@ def partial_reduce_loop(c, kind):
                 shp.append(j if (kind == "identity" and i == axis[0]) else 1)
             else:
                 shp.append(s)
-        return tuple(shp), b0.dtype
+        rf = fr.locals.get("reduce_func")
+        return tuple(shp), (getattr(rf, "out_dtype", None) or b0.dtype)
 
     def havoc(interp, fr, j):
         if interp.truth(j == 0):
@@ -221,6 +222,64 @@ class PartialReduce(ArrayOpSpec):
         nd = cfg["ndim"]
         return ({"x": (nd, None)}, f"lambda xp, a: xp.cumulative_sum(a['x'], axis={cfg['axes'][0]})",
                 f"lambda np, a: np.cumsum(a['x'], axis={cfg['axes'][0]})")
+
+
+@register
+class PartialReduceMemory(ArrayOpSpec):
+    """partial_reduce(x, func, initial_func, split_every, dtype): C03 for its tasks — at every allocation point of the
+    real block function `_partial_reduce` (interpreted, with its loop invariant) the array data that is live fits into
+    projected_mem - reserved_mem, for the task whose blocks have the full chunk size.
+    Configurations: with/without the fused initial function, input dtype of 1 byte widened to an 8-byte intermediate
+    (sum of int8) or 8 -> 8."""
+
+    target = f"{OPS}:partial_reduce"
+    name = f"{OPS}:partial_reduce[memory]"
+    props = ("C03",)
+    prop_obligations = {}
+    trusted = ("reduction kernels allocate exactly their result block; the previous item of the block iterator is not "
+               "counted (the model is a lower bound of what is resident)",
+               "only the task whose blocks have the full chunk size is modelled (smaller edge blocks allocate less)")
+
+    def configs(self, tier):
+        out = []
+        for nd in ((2,) if tier == "quick" else (1, 2)):
+            for init in (True, False):
+                for widen in ((True, False) if init else (False,)):
+                    out.append(dict(ndim=nd, init=init, widen=widen))
+        return out
+
+    def install(self, c):
+        gb.install(c)
+        install_partial_reduce_loop(c, "reduce")
+        c.meter_memory = True
+
+    def setup(self, c):
+        from pyvc.arrays import Dtype
+
+        nd, init, widen = c.cfg["ndim"], c.cfg["init"], c.cfg["widen"]
+        dt_in = Dtype("int8", 1) if widen else Dtype("int64", 8)
+        dt_mid = Dtype("int64", 8)
+        x = sym_array(c, "x", nd, dtype=dt_in)
+        for n, nb, cs in zip(x.shape, x.numblocks, x.chunksize):
+            c.assume(n == nb * cs)  # every block has the full chunk size
+        split = {0: c.int("split0", lo=2)}
+        c.expect_origin = None
+        kw = dict(func=ReduceFn("reduce", out_dtype=dt_mid), split_every=split, dtype=dt_mid,
+                  initial_func=(lambda a: ReduceFn("reduce", "init", out_dtype=dt_mid)(a, axis=(0,), keepdims=True)) if init else None)
+        return (x,), kw
+
+    def ensures(self, c, a, k, res):
+        yield "dtype", res.dtype is k["dtype"]
+
+    def replay(self, cfg, model, ob):
+        """native: the same reduction on a real array with tracemalloc around every task"""
+        c0 = max(1, int(model.get("x_c0", 1)))
+        return f"""
+import sys
+sys.path.insert(0, '/verif')
+from pyvc.replay_mem import run_reduction_memory_case
+reproduced, detail = run_reduction_memory_case(rows_per_chunk={c0}, widen={bool(cfg['widen'])!r}, init={bool(cfg['init'])!r}, ndim={cfg['ndim']})
+"""
 
 
 class ElemwiseFn:
